@@ -404,12 +404,24 @@ def setof(xs):
 def model_check_threads(ev, vd, tier, work):
     import concurrent.futures as cf
     mod = os.path.join(SPEC, "BitmapLoad.tla")
-    base = dict(MaxT=3, UseLock="TRUE", Gs="{1, 2, 4, 5, 6}", Ns="{1, 2, 3}", Flexes="{1, 2}", Kinds="{1, 2}", BadSets="{{}, {1}}")
-    jobs = [("all interleavings, G in {1,2,4,5,6}, n <= 3, flex in {1,2}, 1-2 bitmap kinds, fair termination",
-             bl_cfg(work, "mc", "FairSpec", base, BL_INV, ["Termination"]), dict(workers=2, timeout=1200, xmx="3g"))]
+    base = dict(MaxT=3, UseLock="TRUE", DevJoinLastWins="FALSE", Gs="{1, 2, 4, 5, 6}", Ns="{1, 2, 3}", Flexes="{1, 2}", Kinds="{1, 2}", BadSets="{{}, {1}}",
+                FailModes='{"none"}')
+    inv = BL_INV + ["FailsIffThreadFailed", "NeverLoadsFailing"]
+    jobs = [("all interleavings, every bitmap loads, G in {1,2,4,5,6}, n <= 3, flex in {1,2}, 1-2 bitmap kinds, fair termination",
+             bl_cfg(work, "mc", "FairSpec", base, inv, ["Termination"]), dict(workers=2, timeout=1200, xmx="3g"))]
+    # loads that meet an unloadable bitmap (bad checksum / unreadable block): one damaged pair at the first and the last group of the
+    # first, a middle and the last thread (FailPos), and two damaged pairs (two threads fail / one thread meets two)
+    if tier == "quick":
+        fl = dict(base, Gs="{3, 5}", Kinds="{2}", BadSets="{{}}", FailModes='{"one", "two"}')
+        flabel = "G in {3,5}, n <= 3, flex in {1,2}, both bitmap kinds"
+    else:
+        fl = dict(base, Gs="{2, 4, 5, 6}", FailModes='{"one", "two"}')
+        flabel = "G in {2,4,5,6}, n <= 3, flex in {1,2}, 1-2 bitmap kinds, with and without a tail problem"
+    jobs.append(("all interleavings of loads with one or two unloadable bitmaps (a failing reader thread, join loop, cleanup), " + flabel,
+                 bl_cfg(work, "mcfail", "FairSpec", fl, inv, ["Termination"]), dict(workers=2, timeout=2400, xmx="3g")))
     if tier == "thorough":
-        big = dict(MaxT=4, UseLock="TRUE", Gs="{8, 9}", Ns="{4}", Flexes="{1, 2}", Kinds="{1}", BadSets="{{}, {3}}")
-        jobs.append(("all interleavings, G in {8,9}, 4 threads, flex in {1,2}", bl_cfg(work, "mcbig", "FairSpec", big, BL_INV, ["Termination"]),
+        big = dict(base, MaxT=4, Gs="{8, 9}", Ns="{4}", Kinds="{1}", BadSets="{{}, {3}}", FailModes='{"none", "one"}')
+        jobs.append(("all interleavings, G in {8,9}, 4 threads, flex in {1,2}, no or one unloadable bitmap", bl_cfg(work, "mcbig", "FairSpec", big, inv, ["Termination"]),
                      dict(workers=4, timeout=2400, xmx="4g")))
         pg = list(range(1, 41)) + [47, 48, 49, 63, 64, 65, 96, 127, 128, 129, 200, 255, 256, 257]
         pn = list(range(1, 18)) + [24, 31, 32, 33, 48, 64]
@@ -418,13 +430,15 @@ def model_check_threads(ev, vd, tier, work):
         pg = list(range(1, 41)) + [64, 65, 129]
         pn = [1, 2, 3, 4, 5, 7, 8, 16, 17, 32]
         pf = [1, 2, 4, 16]
-    part = dict(MaxT=64, UseLock="TRUE", Gs=setof(pg), Ns=setof(pn), Flexes=setof(pf), Kinds="{1}", BadSets="{{}}")
+    part = dict(base, MaxT=64, Gs=setof(pg), Ns=setof(pn), Flexes=setof(pf), Kinds="{1}", BadSets="{{}}")
     jobs.append(("partition formula (incl. flex_bg rounding and fall-backs) over %d parameter tuples" % (len(pg) * len(pn) * len(pf) * 2),
                  bl_cfg(work, "part", "PartOnly", part, ["PartitionExact"]), dict(workers=2, timeout=1800, xmx="3g")))
     nolock = dict(base); nolock["UseLock"] = "FALSE"
+    lastwins = dict(base, Gs="{2, 4, 5}", Kinds="{2}", BadSets="{{}}", FailModes='{"one"}', DevJoinLastWins="TRUE")
     with cf.ThreadPoolExecutor(max_workers=4) as ex:
         futs = [(label, cfg, ex.submit(T.tlc, mod, cfg, **kw)) for label, cfg, kw in jobs]
-        gf = ex.submit(T.tlc, mod, bl_cfg(work, "nolock", "Spec", nolock, BL_INV), workers=1, timeout=600, xmx="2g")
+        gf = ex.submit(T.tlc, mod, bl_cfg(work, "nolock", "Spec", nolock, inv), workers=1, timeout=600, xmx="2g")
+        gj = ex.submit(T.tlc, mod, bl_cfg(work, "lastwins", "Spec", lastwins, inv), workers=1, timeout=600, xmx="2g")
         for label, cfg, fu in futs:
             r = fu.result()
             ev.add_tlc(r, "BitmapLoad: " + label)
@@ -436,6 +450,28 @@ def model_check_threads(ev, vd, tier, work):
         if r.violated not in ("MutualExclusion", "LoadedOnce", "ResultScheduleIndependent", "LockHeld"):
             die_broken("vacuity guard: BitmapLoad without the lock does not violate MutualExclusion (%s / %s)" % (r.violated, r.error))
         ev.cov.setdefault("deviating_models_rejected", []).append("BitmapLoad UseLock=FALSE -> %s after %d states" % (r.violated, r.distinct))
+        r = gj.result()
+        if r.violated not in ("FailsIffThreadFailed", "ResultScheduleIndependent"):
+            die_broken("vacuity guard: BitmapLoad with a join loop that keeps the last result does not violate FailsIffThreadFailed (%s / %s)" % (r.violated, r.error))
+        ev.cov.setdefault("deviating_models_rejected", []).append("BitmapLoad DevJoinLastWins=TRUE -> %s after %d states" % (r.violated, r.distinct))
+
+
+def damage_catalogue(work, geoms):
+    """The damaged-image universe, enumerated by the specification (Emit_BitmapLoad): per geometry the groups of FailPos with the
+    position class (first / middle / last thread) of their owner for every thread count of THREADS, and the damage kinds."""
+    gp = os.path.join(work, "bl_geom.ndjson"); out = os.path.join(work, "bl_catalogue.json")
+    with open(gp, "w") as f:
+        for g in geoms:
+            f.write(json.dumps({"G": g[0], "flex": g[1], "hasflex": g[2]}) + "\n")
+    consts = dict(MaxT=16, UseLock="TRUE", DevJoinLastWins="FALSE", Gs="{1}", Ns="{" + THREADS + "}", Flexes="{1}", Kinds="{1}", BadSets="{{}}",
+                  FailModes='{"none"}')
+    cfg = os.path.join(work, "BL_emit.cfg")
+    with open(cfg, "w") as f:
+        f.write("INIT EInit\nNEXT ENext\nCONSTANTS\n" + "".join("  %s = %s\n" % kv for kv in consts.items()) + "CHECK_DEADLOCK FALSE\n")
+    r = T.tlc(os.path.join(SPEC, "Emit_BitmapLoad.tla"), cfg, workers=1, timeout=300, env={"GEOM": gp, "OUT": out}, xmx="1g")
+    if not os.path.exists(out):
+        die_broken("TLC could not enumerate the damaged-image catalogue (Emit_BitmapLoad): %s\n%s" % (r.error, r.out[-1500:]))
+    return json.load(open(out))
 
 
 IMG_VARIANTS = [
@@ -455,53 +491,66 @@ def thread_overlap(tl):
     return len(set(seq)) >= 2 and sw >= len(set(seq))
 
 
-def conformance_threads(ev, vd, tier, work, b, drv):
-    rng = random.Random(seed() + 17)
-    env = tool_env(b)
-    groups = [1, 2, 3, 4, 5, 7, 9, 12, 16, 25, 40] if tier == "quick" else list(range(1, 41))
-    yields = [0, 300] if tier == "quick" else [0, 3, 40, 200, 600, 2000]
-    reps = 1 if tier == "quick" else 3
-    imgdir = os.path.join(work, "img"); os.makedirs(imgdir, exist_ok=True)
-    behaviours, meta = [], []
-    skipped = []
-    for g in groups:
-        for vname, opts, bpg in IMG_VARIANTS:
-            img = os.path.join(imgdir, "g%d_%s.img" % (g, vname))
-            blocks = bpg * g + 1 if bpg == 256 else bpg * g
-            cmd = [os.path.join(b, "misc", "mke2fs"), "-q", "-F", "-o", "Linux", "-b", "1024", "-g", "256", "-N", str(16 * g)] + opts + [img, str(blocks)]
-            p = subprocess.run(cmd, env=env, stdout=subprocess.PIPE, stderr=subprocess.PIPE, timeout=120)
-            if p.returncode != 0:
-                skipped.append("%s G=%d: mke2fs refused (%s)" % (vname, g, p.stderr.decode().strip().splitlines()[-1][:80] if p.stderr.strip() else p.returncode))
-                continue
-            bad = None
-            if g >= 2 and rng.random() < 0.3:
-                bad = rng.randrange(g)
-            for y in yields:
-                tr = os.path.join(work, "bl_trace.ndjson")
-                if os.path.exists(tr):
-                    os.unlink(tr)
-                e2 = dict(env); e2["VERIF_TRACE"] = tr; e2["VERIF_YIELD"] = str(y)
-                cmd = [drv, img, tr, THREADS, str(reps)] + (["badtail=%d" % bad] if bad is not None else [])
-                try:
-                    p = subprocess.run(cmd, env=e2, stdout=subprocess.PIPE, stderr=subprocess.PIPE, timeout=300)
-                except subprocess.TimeoutExpired:
-                    vd.violation("threads:hang", "threaded bitmap load did not finish within 300 s (%s G=%d yield=%d)" % (vname, g, y),
-                                 {"mke2fs": cmd, "image": vname, "groups": g}); continue
-                if p.returncode not in (0, 1):
-                    if p.returncode < 0:
-                        vd.violation("threads:crash", "bmload killed by signal %d (%s G=%d yield=%d)" % (-p.returncode, vname, g, y),
-                                     {"image": vname, "groups": g, "yield": y}); continue
-                    die_broken("bmload failed (%s G=%d): %s" % (vname, g, p.stderr.decode()[-300:]))
-                lines = open(tr).read().splitlines()
-                tb = tracecheck.split_behaviours(lines, lambda s: s.startswith('{"e":"Load"'))
-                want = 1 + reps * len(THREADS.split(","))
-                if len(tb) != want or any(not t[-1].startswith('{"e":"Done"') for t in tb):
-                    die_broken("instrumentation incomplete: %d of %d loads logged completely (%s G=%d)" % (len(tb), want, vname, g))
-                for t in tb:
-                    behaviours.append(t)
-                    meta.append({"image": vname, "groups": g, "yield": y, "badtail": bad, "mke2fs_opts": opts, "load": json.loads(t[0])})
-    if not behaviours:
-        die_broken("no image could be built for the threaded bitmap loading part")
+def make_image(b, env, imgdir, vname, opts, bpg, g):
+    """mke2fs an image with g groups; returns (path, None) or (None, reason)."""
+    img = os.path.join(imgdir, "g%d_%s.img" % (g, vname))
+    blocks = bpg * g + 1 if bpg == 256 else bpg * g
+    cmd = [os.path.join(b, "misc", "mke2fs"), "-q", "-F", "-o", "Linux", "-b", "1024", "-g", "256", "-N", str(16 * g)] + opts + [img, str(blocks)]
+    p = subprocess.run(cmd, env=env, stdout=subprocess.PIPE, stderr=subprocess.PIPE, timeout=120)
+    if p.returncode != 0:
+        return None, "%s G=%d: mke2fs refused (%s)" % (vname, g, p.stderr.decode().strip().splitlines()[-1][:80] if p.stderr.strip() else p.returncode)
+    return img, None
+
+
+def run_bmload(vd, drv, env, work, img, y, reps, vname, g, bad=None, damage=()):
+    """One bmload process on (a scratch copy of) img; returns the list of behaviours (one per load), None after a violation
+    that needs no TLC (hang, crash)."""
+    tr = os.path.join(work, "bl_trace.ndjson")
+    if os.path.exists(tr):
+        os.unlink(tr)
+    use = img
+    if damage:
+        use = os.path.join(work, "bl_damaged.img")
+        shutil.copyfile(img, use)
+    e2 = dict(env); e2["VERIF_TRACE"] = tr; e2["VERIF_YIELD"] = str(y)
+    cmd = [drv, use, tr, THREADS, str(reps)] + (["badtail=%d" % bad] if bad is not None else []) + ["damage=%s:%d" % (k, dg) for k, dg in damage]
+    what = "%s G=%d yield=%d%s" % (vname, g, y, (" damage=" + ",".join("%s:%d" % d for d in damage)) if damage else "")
+    try:
+        p = subprocess.run(cmd, env=e2, stdout=subprocess.PIPE, stderr=subprocess.PIPE, timeout=300)
+    except subprocess.TimeoutExpired:
+        vd.violation("threads:hang", "threaded bitmap load did not finish within 300 s (%s)" % what,
+                     {"image": vname, "groups": g, "yield": y, "badtail": bad, "damage": [list(d) for d in damage]})
+        return None
+    if p.returncode not in (0, 1):
+        if p.returncode < 0:
+            vd.violation("threads:crash", "bmload killed by signal %d (%s)" % (-p.returncode, what),
+                         {"image": vname, "groups": g, "yield": y, "badtail": bad, "damage": [list(d) for d in damage]})
+            return None
+        die_broken("bmload failed (%s): %s" % (what, p.stderr.decode()[-300:]))
+    lines = open(tr).read().splitlines()
+    tb = tracecheck.split_behaviours(lines, lambda s: s.startswith('{"e":"Load"'))
+    want = 1 + reps * len(THREADS.split(","))
+    if len(tb) != want or any(not t[0].startswith('{"e":"Load"') or not t[-1].startswith('{"e":"Done"') for t in tb):
+        die_broken("instrumentation incomplete: %d of %d loads logged completely (%s)" % (len(tb), want, what))
+    return tb
+
+
+def fail_cell(t):
+    """(position class of the thread that owns the first unloadable bitmap, error class) of a threaded load, None otherwise."""
+    ld = json.loads(t[0])
+    if not ld["fail"]:
+        return None
+    starts = sorted((json.loads(x)["first"], json.loads(x)["last"]) for x in t if x.startswith('{"e":"ThStart"'))
+    if len(starts) < 2:
+        return None
+    g, k, code = min(ld["fail"])
+    for i, (a, z) in enumerate(starts):
+        if a <= g <= z:
+            return ("first" if i == 0 else "last" if i == len(starts) - 1 else "middle", code)
+    return None
+
+
+def validate_threads(vd, ev, behaviours, meta, work):
     mod = os.path.join(SPEC, "Trace_BitmapLoad.tla"); cfg = os.path.join(SPEC, "Trace_BitmapLoad.cfg")
     res = tracecheck.validate(behaviours, mod, cfg, work, chunk_lines=4000, jobs=WORKERS, timeout=1200)
     if res["broken"]:
@@ -520,19 +569,112 @@ def conformance_threads(ev, vd, tier, work, b, drv):
         whatv = ("invariant %s violated" % inv) if inv else "trace rejected"
         vd.violation("threads:%s@%s" % (whatv, opname), "threaded bitmap load: %s at event %d (%s) -- %s" % (whatv, k, line[:200], json.dumps(meta[bi])[:300]),
                      {"meta": meta[bi], "trace": behaviours[bi], "first_unmatched_line": k, "tlc_tail": tail[-1500:]})
+    return nfail
+
+
+def conformance_threads(ev, vd, tier, work, b, drv):
+    rng = random.Random(seed() + 17)
+    env = tool_env(b)
+    groups = [1, 2, 3, 4, 5, 7, 9, 12, 16, 25, 40] if tier == "quick" else list(range(1, 41))
+    yields = [0, 300] if tier == "quick" else [0, 3, 40, 200, 600, 2000]
+    reps = 1 if tier == "quick" else 3
+    imgdir = os.path.join(work, "img"); os.makedirs(imgdir, exist_ok=True)
+    behaviours, meta = [], []
+    skipped = []
+    images = []                 # (vname, opts, bpg, csum, g, path, geometry)
+    # --- undamaged images (and a tail problem in about a third of them)
+    for g in groups:
+        for vname, opts, bpg in IMG_VARIANTS:
+            img, why = make_image(b, env, imgdir, vname, opts, bpg, g)
+            if img is None:
+                skipped.append(why); continue
+            bad = None
+            if g >= 2 and rng.random() < 0.3:
+                bad = rng.randrange(g)
+            geo = None
+            for y in yields:
+                tb = run_bmload(vd, drv, env, work, img, y, reps, vname, g, bad=bad)
+                if tb is None:
+                    continue
+                ld = json.loads(tb[0][0]); geo = (ld["G"], ld["flex"], ld["hasflex"])
+                for t in tb:
+                    behaviours.append(t)
+                    meta.append({"image": vname, "groups": g, "yield": y, "badtail": bad, "damage": [], "mke2fs_opts": opts, "load": json.loads(t[0])})
+            if geo and bad is None:
+                images.append((vname, opts, bpg, "metadata_csum" in " ".join(opts), g, img, geo))
+            else:
+                os.unlink(img)
+    if not behaviours:
+        die_broken("no image could be built for the threaded bitmap loading part")
+    # --- damaged images: the universe is the specification's catalogue (Emit_BitmapLoad): damage kind x group of FailPos, by position class
+    cat = damage_catalogue(work, sorted({im[6] for im in images}))
+    pos_of = {(e["G"], e["flex"], e["hasflex"]): e["pos"] for e in cat["geo"]}
+    kinds_all = sorted(cat["kinds"]); kinds_csum = set(cat["csum_kinds"])
+    plan = []                   # (image tuple, damage list, yield)
+    rot = rng.randrange(100)
+    for im in images:
+        cls = {}
+        for e in pos_of.get(im[6], []):
+            cls.setdefault(e["class"], set()).add(e["g"])
+        kinds = [k for k in kinds_all if im[3] or k not in kinds_csum]
+        if im[3]:
+            kinds = kinds + [k for k in kinds if k in kinds_csum] * 2       # checksum damage needs metadata_csum: use it where it is possible
+        if not cls:
+            continue
+        if tier == "quick":
+            for c in ("first", "middle", "last"):
+                if c in cls:
+                    rot += 1
+                    plan.append((im, [(kinds[rot % len(kinds)], rng.choice(sorted(cls[c])))], yields[rot % len(yields)]))
+            if "first" in cls and "last" in cls:
+                rot += 1
+                plan.append((im, [(kinds[rot % len(kinds)], rng.choice(sorted(cls["last"]))), (kinds[(rot // 2) % len(kinds)], rng.choice(sorted(cls["first"])))],
+                             yields[rot % len(yields)]))
+        else:
+            for c in sorted(cls):
+                for dg in sorted(cls[c]):
+                    for k in kinds:
+                        rot += 1
+                        plan.append((im, [(k, dg)], yields[rot % len(yields)]))
+            if "first" in cls and "last" in cls:
+                for k in kinds:
+                    rot += 1
+                    plan.append((im, [(k, max(cls["last"])), (kinds[rot % len(kinds)], min(cls["first"]))], yields[rot % len(yields)]))
+    ndam = 0
+    for im, damage, y in plan:
+        tb = run_bmload(vd, drv, env, work, im[5], y, reps, im[0], im[4], damage=damage)
+        if tb is None:
+            continue
+        ndam += 1
+        for t in tb:
+            behaviours.append(t)
+            meta.append({"image": im[0], "groups": im[4], "yield": y, "badtail": None, "damage": [list(d) for d in damage], "mke2fs_opts": im[1], "load": json.loads(t[0])})
+    nfail = validate_threads(vd, ev, behaviours, meta, work)
     ev.cov["traces_validated_against_impl"] += len(behaviours) - nfail
     ev.cov["evaluations"] += len(behaviours)
     ev.cov["threaded_loads"] = sum(1 for m in meta if m["load"]["nreq"] > 1)
     ev.cov["thread_events_validated"] = sum(len(t) for t in behaviours)
     nover = 0
+    cells = {}
     for t, m in zip(behaviours, meta):
+        fc = fail_cell(t)
+        if fc:
+            key = "%s thread:error class %d" % fc
+            cells[key] = cells.get(key, 0) + 1
         if thread_overlap(t):
             nover += 1
             ev.nontrivial("thr:%s:%d:%d:%d:%s" % (m["image"], m["groups"], m["load"]["nreq"], m["yield"], hashlib.sha1("".join(t).encode()).hexdigest()[:12]))
     ev.cov["threaded_loads_with_overlapping_threads"] = nover
+    ev.cov["damaged_image_runs"] = ndam
+    ev.cov["loads_of_damaged_images"] = sum(1 for m in meta if m["load"]["fail"])
+    ev.cov["threaded_failing_loads_by_owner_position_and_error"] = cells
+    ev.cov["damage_catalogue"] = {"kinds": kinds_all, "geometries": len(cat["geo"]), "positions": sum(len(e["pos"]) for e in cat["geo"])}
     ev.cov["images_skipped"] = skipped
     i0 = next((i for i, m in enumerate(meta) if m["load"]["nreq"] == 3 and m["groups"] >= 7), 0)
     ev.sample({"threaded_load": meta[i0], "first_events": [json.loads(x) for x in behaviours[i0][:8]]})
+    i1 = next((i for i, m in enumerate(meta) if m["load"]["nreq"] == 3 and m["load"]["fail"] and m["groups"] >= 7), None)
+    if i1 is not None:
+        ev.sample({"threaded_load_of_a_damaged_image": meta[i1], "last_events": [json.loads(x) for x in behaviours[i1][-6:]]})
 
 
 def run(tier):
